@@ -167,11 +167,39 @@ def map_order(run,m):
     k=run.pick(len(orders),'hashorder')
     return orders[k]
 
+def hash_mode(run,m):
+    """None if the iteration order of m is determined (BTree, <= 1 entry, 'fixed' mode), else the enumeration mode"""
+    if m.ordered or len(m.e)<=1: return None
+    mode=getattr(run,'hash_order',None) or run.eng.hash_order
+    return None if mode=='fixed' else mode
+def lazy_map_iter(run,m,fn,keep=None):
+    """iterator over a map whose order is chosen only when a consumer depends on it (force_order); order-insensitive
+    consumers (count, min, max, sum, all, any, collect into a set) take the entries as they are"""
+    mode=hash_mode(run,m)
+    if mode is None: return Iter([fn(i) for i in map_order(run,m) if keep is None or keep(i)])
+    it=Iter([fn(i) for i in range(len(m.e)) if keep is None or keep(i)])
+    if len(it.items)>1: it.lazy=mode
+    return it
+def force_order(run,it):
+    if it.lazy is None: return it
+    if it.lazy=='parts':
+        a1,a2=it.extra; it.extra=None; it.lazy=None
+        it.items=list(force_order(run,a1).items)+list(force_order(run,a2).items); return it
+    mode=it.lazy; it.lazy=None; n=len(it.items)
+    if mode=='rot':
+        orders=[list(range(r,n))+list(range(r)) for r in range(n)]
+        rv=list(reversed(range(n)))
+        if rv not in orders: orders.append(rv)
+    else: orders=[list(p) for p in itertools.permutations(range(n))]
+    k=run.pick(len(orders),'hashorder')
+    it.items=[it.items[i] for i in orders[k]]
+    return it
 def tuple2(a,b): return Agg('()',[a,b])
 
 # ----------------------------------------------------------------------------- iterators
 def iter_next(e,run,it):
     """advance a (possibly adapted) iterator; returns value or None"""
+    if it.lazy is not None: force_order(run,it)
     while True:
         if it.inner is not None:
             x=iter_next(e,run,it.inner)
@@ -203,20 +231,18 @@ def iter_next(e,run,it):
             else: raise Unsupported('adaptor '+kind)
         if not drop: return x
 
-def to_iter(e,run,v):
+def to_iter(e,run,v,lazy_ok=False):
     d=deref(v)
-    if isinstance(d,Iter): return d
+    if isinstance(d,Iter): return d if lazy_ok else force_order(run,d)
     byref=isinstance(v,Ref)
     if isinstance(d,VecO):
         if byref: return Iter([Ref(d,i) for i in range(len(d.items))])
         return Iter(d.items)
     if isinstance(d,MapO):
-        order=map_order(run,d)
-        if d.is_set:
-            if byref: return Iter([Ref(d.e[i],0) for i in order])
-            return Iter([d.e[i][0] for i in order])
-        if byref: return Iter([tuple2(Ref(d.e[i],0),Ref(d.e[i],1)) for i in order])
-        return Iter([tuple2(d.e[i][0],d.e[i][1]) for i in order])
+        if d.is_set: fn=(lambda i: Ref(d.e[i],0)) if byref else (lambda i: d.e[i][0])
+        else: fn=(lambda i: tuple2(Ref(d.e[i],0),Ref(d.e[i],1))) if byref else (lambda i: tuple2(d.e[i][0],d.e[i][1]))
+        it=lazy_map_iter(run,d,fn)
+        return it if lazy_ok else force_order(run,it)
     if isinstance(d,Agg) and d.ty=='Option':
         return Iter([Ref(d,0)] if byref and d.vname=='Some' else (d.f[:1] if d.vname=='Some' else []))
     if isinstance(d,Agg) and d.ty=='Result':
@@ -235,17 +261,17 @@ def to_iter(e,run,v):
 def m_into_iter(e,run,a,f):
     d=deref(a[0])
     if isinstance(d,Agg) and e.impl_index.get(('Iterator',d.ty,'next')): return a[0]      # in-crate iterator: IntoIterator is the identity
-    return to_iter(e,run,a[0])
+    return to_iter(e,run,a[0],lazy_ok=True)
 def m_slice_iter(e,run,a,f):
     d=deref(a[0])
     if isinstance(d,VecO): return Iter([Ref(d,i) for i in range(len(d.items))])
     if isinstance(d,(Str,StringO)): return Iter([Ref(Cell(Int(8,False,x))) for x in d.b])
-    if isinstance(d,MapO): return to_iter(e,run,a[0] if isinstance(a[0],Ref) else Ref(Cell(d)))
+    if isinstance(d,MapO): return to_iter(e,run,a[0] if isinstance(a[0],Ref) else Ref(Cell(d)),lazy_ok=True)
     raise Unsupported('iter of '+repr(d)[:60])
 def m_iter_mut(e,run,a,f): return m_slice_iter(e,run,a,f)
 def adaptor(kind):
     def m(e,run,a,f):
-        it=to_iter(e,run,a[0]); it.adapt.append((kind,a[1] if len(a)>1 else None)); return it
+        it=to_iter(e,run,a[0],lazy_ok=(kind in ('map','filter','filter_map','cloned','flatten'))); it.adapt.append((kind,a[1] if len(a)>1 else None)); return it
     return m
 def m_next(e,run,a,f):
     it=deref(a[0]); x=iter_next(e,run,it)
@@ -259,7 +285,12 @@ def drain(e,run,it):
 def m_last(e,run,a,f):
     xs=drain(e,run,to_iter(e,run,a[0]))
     return some(xs[-1]) if xs else none()
-def m_count(e,run,a,f): return Int(64,False,len(drain(e,run,to_iter(e,run,a[0]))))
+def any_order(e,run,v):
+    """the iterator for a consumer whose result does not depend on the order of the items"""
+    it=to_iter(e,run,v,lazy_ok=True); it.lazy=None
+    if it.extra is not None and isinstance(it.extra,tuple) and len(it.extra)==2 and isinstance(it.extra[0],Iter): it.extra=None
+    return it
+def m_count(e,run,a,f): return Int(64,False,len(drain(e,run,any_order(e,run,a[0]))))
 def collect_into(e,run,kind,xs):
     if kind in ('HashMap','BTreeMap'):
         m=MapO(kind=='BTreeMap')
@@ -290,7 +321,7 @@ def collect_kind(f):
     raise Unsupported('collect kind '+f[-100:])
 def m_collect(e,run,a,f):
     res,kind=collect_kind(f)
-    xs=drain(e,run,to_iter(e,run,a[0]))
+    xs=drain(e,run,any_order(e,run,a[0]) if (kind in ('HashSet','BTreeSet') and not res) else to_iter(e,run,a[0]))
     if res:
         out=[]
         for x in xs:
@@ -312,13 +343,13 @@ def m_for_each(e,run,a,f):
         if x is None: return UNIT
         e.call_value(run,a[1],[x])
 def m_any(e,run,a,f):
-    it=to_iter(e,run,a[0])
+    it=any_order(e,run,a[0])
     while True:
         x=iter_next(e,run,it)
         if x is None: return Bool(False)
         if run.branch_bool(e.call_value(run,a[1],[x]),'any'): return Bool(True)
 def m_all(e,run,a,f):
-    it=to_iter(e,run,a[0])
+    it=any_order(e,run,a[0])
     while True:
         x=iter_next(e,run,it)
         if x is None: return Bool(True)
@@ -832,30 +863,32 @@ def m_map_index(e,run,a,f):
     m=deref(a[0]); i=map_find(run,m,a[1])
     if i is None: raise Panic('map index: key not found ('+strip_t(f)[:70]+')','mapindex')
     return Ref(m.e[i],1)
-def m_map_iter(e,run,a,f): return to_iter(e,run,a[0] if isinstance(a[0],Ref) else Ref(Cell(a[0])))
+def m_map_iter(e,run,a,f): return to_iter(e,run,a[0] if isinstance(a[0],Ref) else Ref(Cell(a[0])),lazy_ok=True)
 def m_map_keys(e,run,a,f):
-    m=deref(a[0]); return Iter([Ref(m.e[i],0) for i in map_order(run,m)])
+    m=deref(a[0]); return lazy_map_iter(run,m,lambda i: Ref(m.e[i],0))
 def m_map_values(e,run,a,f):
-    m=deref(a[0]); return Iter([Ref(m.e[i],1) for i in map_order(run,m)])
+    m=deref(a[0]); return lazy_map_iter(run,m,lambda i: Ref(m.e[i],1))
 def m_map_into_values(e,run,a,f):
-    m=deref(a[0]); return Iter([m.e[i][1] for i in map_order(run,m)])
+    m=deref(a[0]); return lazy_map_iter(run,m,lambda i: m.e[i][1])
 def m_map_into_keys(e,run,a,f):
-    m=deref(a[0]); return Iter([m.e[i][0] for i in map_order(run,m)])
+    m=deref(a[0]); return lazy_map_iter(run,m,lambda i: m.e[i][0])
 def m_set_difference(e,run,a,f):
     x=deref(a[0]); y=deref(a[1])
-    out=[Ref(x.e[i],0) for i in map_order(run,x) if map_find(run,y,x.e[i][0]) is None]
-    return Iter(out)
+    return lazy_map_iter(run,x,lambda i: Ref(x.e[i],0),lambda i: map_find(run,y,x.e[i][0]) is None)
 def m_set_intersection(e,run,a,f):
     x=deref(a[0]); y=deref(a[1])
-    out=[Ref(x.e[i],0) for i in map_order(run,x) if map_find(run,y,x.e[i][0]) is not None]
-    return Iter(out)
+    return lazy_map_iter(run,x,lambda i: Ref(x.e[i],0),lambda i: map_find(run,y,x.e[i][0]) is not None)
 def m_set_is_subset(e,run,a,f):
     x=deref(a[0]); y=deref(a[1])
     return Bool(all(map_find(run,y,k) is not None for k,_ in x.e))
 def m_set_symmetric_difference(e,run,a,f):
     x=deref(a[0]); y=deref(a[1])
-    out=[Ref(x.e[i],0) for i in map_order(run,x) if map_find(run,y,x.e[i][0]) is None]+[Ref(y.e[i],0) for i in map_order(run,y) if map_find(run,x,y.e[i][0]) is None]
-    return Iter(out)
+    # (x - y) then (y - x), each part in its own hash order: chained lazily (order-insensitive consumers take them as they are)
+    a1=lazy_map_iter(run,x,lambda i: Ref(x.e[i],0),lambda i: map_find(run,y,x.e[i][0]) is None); a2=lazy_map_iter(run,y,lambda i: Ref(y.e[i],0),lambda i: map_find(run,x,y.e[i][0]) is None)
+    if a1.lazy is None and a2.lazy is None: return Iter(a1.items+a2.items)
+    def part(p): return lambda: force_order(run,p).items
+    it=Iter(a1.items+a2.items); it.lazy='parts'; it.extra=(a1,a2)
+    return it
 def m_set_union(e,run,a,f):
     x=deref(a[0]); y=deref(a[1])
     out=[Ref(x.e[i],0) for i in map_order(run,x)]+[Ref(y.e[i],0) for i in map_order(run,y) if map_find(run,x,y.e[i][0]) is None]
@@ -1463,7 +1496,7 @@ def m_iter_fold(e,run,a,f):
         acc=e.call_value(run,a[2],[acc,x])
 def m_iter_min_max(which):
     def m(e,run,a,f):
-        xs=drain(e,run,to_iter(e,run,a[0]))
+        xs=drain(e,run,any_order(e,run,a[0]))
         if not xs: return none()
         best=xs[0]
         for x in xs[1:]:
@@ -2276,7 +2309,7 @@ def register_all(E):
 
 # ---- Iterator::flat_map, [T]::binary_search_by (transcribed from core::slice, the version without early exit)
 def m_flat_map(e,run,a,f):
-    it=to_iter(e,run,a[0]); it.adapt.append(('map',a[1])); it.adapt.append(('flatten',None)); return it
+    it=to_iter(e,run,a[0],lazy_ok=True); it.adapt.append(('map',a[1])); it.adapt.append(('flatten',None)); return it
 def m_binary_search_by(e,run,a,f):
     sl=deref(a[0]); fn=a[1]
     n=len(sl.items) if isinstance(sl,VecO) else None
